@@ -270,6 +270,18 @@ def int_alias_discipline(chk: Check) -> None:
     sia = prog.func('processes.Process._set_interrupt_action')
     cancels = [c for c in calls_in_func(sia, 'cancel')]
     chk.info('INT-alias', f'_set_interrupt_action cancels the previous action: {bool(cancels)}')
+    # ... and installs what it is given, on every path (a kill requested during a step exists only as this attribute until the step ends)
+    scfg = cfg_of(sia)
+    ap = sia.params[1] if len(sia.params) > 1 else 'new_action'
+    inst = [n for n in scfg.nodes if n.kind == 'stmt' and isinstance(n.ast, ast.Assign) and norm(n.ast.targets[0]) == IA and norm(n.ast.value) == ap]
+    chk.ob('OWN-interrupt-action', sia, bool(inst) and scfg.must_pass(scfg.entry, [scfg.exit], lambda m: m in inst, edge_ok=no_exc),
+           '_set_interrupt_action installs the action it is given on every path', kind='installs-argument')
+    sfe = prog.func('processes.Process._set_interrupt_action_from_exception')
+    mk = [c for c in calls_in_func(sfe, '_create_interrupt_action')]
+    st_ = [c for c in calls_in_func(sfe, '_set_interrupt_action')]
+    from ..rules import Resolver as _Rs
+    ok = len(mk) == 1 and len(st_) == 1 and [norm(a) for a in mk[0].args] == [sfe.params[1]] and _Rs(sfe).text(st_[0].args[0]) == norm(mk[0])
+    chk.ob('OWN-interrupt-action', sfe, ok, '_set_interrupt_action_from_exception installs the action created for that very interruption', kind='installs-created-action')
     sites = []
     for name in ('_set_interrupt_action', '_set_interrupt_action_from_exception'):
         for f, c in call_sites(prog, name):
